@@ -367,18 +367,33 @@ package types
 //@   requires m.table.data <= len(m.bytes)
 //@   ensures[C02] within(result, m.bytes)
 //@   noalloc[C17] noerr && calleesok
+//@   let T = mem(m.table.table)
+//@   let s = lo(m.table.table)
+//@   ensures[C01,C16] !m.table.big && SORTS(T, s, len(m.table.table) / 3) ==> (forall k :: 0 <= k && k < len(m.table.table) / 3 && smallTag(T, s, k) == tag && 0 < smallOff(T, s, k) && smallOff(T, s, k) <= m.table.data && valueSize(mem(m.bytes), lo(m.bytes), lo(m.bytes) + smallOff(T, s, k)) > 0 ==> len(result) == valueSize(mem(m.bytes), lo(m.bytes), lo(m.bytes) + smallOff(T, s, k)) && hi(result) == lo(m.bytes) + smallOff(T, s, k))
+//@   ensures[C01,C16] m.table.big && SORTB(T, s, len(m.table.table) / 6) ==> (forall k :: 0 <= k && k < len(m.table.table) / 6 && bigTag(T, s, k) == tag && 0 < bigOff(T, s, k) && bigOff(T, s, k) <= m.table.data && valueSize(mem(m.bytes), lo(m.bytes), lo(m.bytes) + bigOff(T, s, k)) > 0 ==> len(result) == valueSize(mem(m.bytes), lo(m.bytes), lo(m.bytes) + bigOff(T, s, k)) && hi(result) == lo(m.bytes) + bigOff(T, s, k))
 
 //@ func (Message).FieldAt
 //@   safety[C02]
 //@   requires m.table.data <= len(m.bytes)
 //@   ensures[C02] within(result, m.bytes)
 //@   noalloc[C17] noerr && calleesok
+//@   let T = mem(m.table.table)
+//@   let s = lo(m.table.table)
+//@   let e = ite(m.table.big, bigOff(T, s, i), smallOff(T, s, i))
+//@   let n = ite(m.table.big, len(m.table.table) / 6, len(m.table.table) / 3)
+//@   let vs = valueSize(mem(m.bytes), lo(m.bytes), lo(m.bytes) + e)
+//@   ensures[C01,C16] 0 <= i && i < n && 0 < e && e <= m.table.data && vs > 0 ==> result == m.bytes[e-vs:e]
+//@   ensures[C01,C16] 0 <= i && i < n && e > m.table.data ==> len(result) == 0
 
 //@ func (Message).FieldRaw
 //@   safety[C02]
 //@   requires m.table.data <= len(m.bytes)
 //@   ensures[C02] within(result, m.bytes)
 //@   noalloc[C17]
+//@   let T = mem(m.table.table)
+//@   let s = lo(m.table.table)
+//@   ensures[C01,C16] !m.table.big && SORTS(T, s, len(m.table.table) / 3) ==> (forall k :: 0 <= k && k < len(m.table.table) / 3 && smallTag(T, s, k) == tag && smallOff(T, s, k) <= m.table.data ==> result == m.bytes[:smallOff(T, s, k)])
+//@   ensures[C01,C16] m.table.big && SORTB(T, s, len(m.table.table) / 6) ==> (forall k :: 0 <= k && k < len(m.table.table) / 6 && bigTag(T, s, k) == tag && bigOff(T, s, k) <= m.table.data ==> result == m.bytes[:bigOff(T, s, k)])
 
 //@ func (Message).TagAt
 //@   safety[C02]
